@@ -2,6 +2,7 @@ mod entry;
 mod gen;
 mod out;
 mod p_c02;
+mod p_c09;
 mod p_c20;
 mod p_get;
 mod dump;
@@ -22,6 +23,7 @@ fn main() {
             let mut out = out::Out::new(dir);
             match prop.as_str() {
                 "C02" => p_c02::run(&mut out, tier, seed),
+                "C09" => p_c09::run(&mut out, tier, seed),
                 "C20" => p_c20::run(&mut out, tier, seed),
                 "C10" => p_get::run_c10(&mut out, tier, seed),
                 "C11" => p_get::run_c11(&mut out, tier, seed),
